@@ -1,4 +1,4 @@
-from math import atan, pi, sin, sqrt
+from math import atan, cos, pi, sin, sqrt
 
 import numpy as np
 
@@ -139,6 +139,12 @@ def sort_intersections(r_a, rotate):
         return r_a
     vals = [0] * len(r_a)
     for i, inter in enumerate(r_a):
+        if inter[0] < 0:
+            # atan(y / x) is the direction of (-x, -y) when x < 0 (an intersection on the y-axis can come back
+            # with x = -1e-14): use the projection on the row direction, which is what the expression below
+            # evaluates to for x > 0
+            vals[i] = inter[0] * cos(rotate) + inter[1] * sin(rotate)
+            continue
         phi = PI_OVER_2 if inter[0] == 0 else atan(inter[1] / inter[0])
         dist_inter = sqrt(inter[1] ** 2 + inter[0] ** 2)
         ref_ang = PI_OVER_2 - phi
